@@ -217,6 +217,13 @@ def run(ctx):
             ctx.ok('R11.4', i['what'], i['where'])
 
 
+    # ---- R11.5 the input window closes only on a deactivate-all (rule R12.5 of C12, same facts): no other PDU may silently suspend input ----
+    import c12
+    ctx.include(c12.run, ('R12.5',), 'R11.5')
+    # ---- R11.6 input PDUs carry the MCS-assigned identifiers (rule R03.5 of C03): user id as PDU source, channel id as target --------
+    import c03
+    ctx.include(c03.run, ('R03.5',), 'R11.6')
+
 def c12_gate(ctx, P, W):
     """input is written only in state Data; every accepted demand-active refreshes the share id used by input PDUs"""
     import c12
